@@ -170,6 +170,75 @@ fn read_tree(root: &Path) -> BTreeMap<String, Vec<u8>> {
     out
 }
 
+/// Paths a traced process created, opened for writing, renamed to or linked (successful calls only).
+fn created_paths(strace: &str, cwd: &Path) -> Vec<String> {
+    let mut out = Vec::new();
+    for line in strace.lines() {
+        // "<pid> name(args) = ret"
+        let Some(eq) = line.rfind(" = ") else { continue };
+        let ret = line[eq + 3..].trim();
+        if ret.starts_with('-') || ret.starts_with('?') {
+            continue;
+        }
+        let body = &line[..eq];
+        let Some(paren) = body.find('(') else { continue };
+        let name = body[..paren].rsplit(' ').next().unwrap_or("");
+        let args = &body[paren + 1..];
+        // quoted strings in order
+        let mut strs = Vec::new();
+        let mut rest = args;
+        while let Some(a) = rest.find('"') {
+            let tail = &rest[a + 1..];
+            let mut end = None;
+            let mut esc = false;
+            for (i, c) in tail.char_indices() {
+                if esc {
+                    esc = false;
+                } else if c == '\\' {
+                    esc = true;
+                } else if c == '"' {
+                    end = Some(i);
+                    break;
+                }
+            }
+            let Some(e) = end else { break };
+            strs.push(tail[..e].to_string());
+            rest = &tail[e + 1..];
+        }
+        let writes = match name {
+            "open" | "openat" => args.contains("O_CREAT") || args.contains("O_WRONLY") || args.contains("O_RDWR"),
+            "creat" | "mkdir" | "mkdirat" => true,
+            "rename" | "renameat" | "renameat2" | "symlink" | "symlinkat" | "link" | "linkat" => true,
+            _ => false,
+        };
+        if !writes {
+            continue;
+        }
+        let targets: Vec<&String> = match name {
+            // the created name is the last path argument; for renames the source is (re)moved too
+            "rename" | "renameat" | "renameat2" | "link" | "linkat" => strs.iter().collect(),
+            "symlink" | "symlinkat" => strs.iter().skip(1).collect(),
+            _ => strs.iter().take(1).collect(),
+        };
+        for t in targets {
+            let p = if t.starts_with('/') { PathBuf::from(t) } else { cwd.join(t) };
+            // normalise "." and ".."
+            let mut norm = PathBuf::new();
+            for c in p.components() {
+                match c {
+                    std::path::Component::ParentDir => {
+                        norm.pop();
+                    }
+                    std::path::Component::CurDir => {}
+                    o => norm.push(o),
+                }
+            }
+            out.push(norm.to_string_lossy().to_string());
+        }
+    }
+    out
+}
+
 fn list_tree(root: &Path, skip: &Path) -> Vec<String> {
     fn walk(dir: &Path, skip: &Path, out: &mut Vec<String>) {
         let Ok(rd) = std::fs::read_dir(dir) else { return };
@@ -621,14 +690,46 @@ impl Engine for GenEngine {
             let noise: Vec<(String, String)> = (0..ctx.draw(4)).map(|i| (format!("NOISE_{}", i), format!("{}", ctx.draw(1 << 30)))).collect();
             let before = list_tree(&root, &out_abs);
             let _ = std::fs::create_dir_all(xdir.join("warmup-out"));
+            // environment faults: the temp directory is missing, or already holds entries named like generated files
+            let tmp_state = ctx.draw(6);
+            match tmp_state {
+                4 => {
+                    let _ = std::fs::remove_dir_all(&tmp);
+                    ctx.count("fault.tmpdir_missing");
+                }
+                5 => {
+                    for d in ["mod.rs", "lib.rs", "Cargo.toml", "rustfmt.toml"] {
+                        let _ = std::fs::create_dir_all(tmp.join(d));
+                    }
+                    ctx.count("fault.tmpdir_with_decoy_entries");
+                }
+                _ => {}
+            }
+            // a fraction of the executions runs under strace: every file-creating system call is checked
+            let traced = ctx.chance(1, 4);
+            let trace_file = xdir.join("strace.txt");
             let warm = !use_cli && ctx.chance(1, 2);
             let warm_out = xdir.join("warmup-out");
-            let mut cmd = if use_cli {
-                let mut c = Command::new(std::env::var("VERIF_CLI").unwrap_or_else(|_| CLI.to_string()));
-                c.args(cfg.cli_args());
+            let program: std::ffi::OsString = if use_cli {
+                std::env::var("VERIF_CLI").unwrap_or_else(|_| CLI.to_string()).into()
+            } else {
+                self_exe.clone().into()
+            };
+            let mut base = if traced {
+                let mut c = Command::new("strace");
+                c.args(["-f", "-qq", "-e", "trace=open,openat,creat,mkdir,mkdirat,rename,renameat,renameat2,symlink,symlinkat,link,linkat", "-o"]);
+                c.arg(&trace_file);
+                c.arg(&program);
+                ctx.count("probe.executions_under_strace");
                 c
             } else {
-                let mut c = Command::new(&self_exe);
+                Command::new(&program)
+            };
+            let mut cmd = if use_cli {
+                base.args(cfg.cli_args());
+                base
+            } else {
+                let mut c = base;
                 c.arg("gen-lib");
                 if warm {
                     // an earlier generation in the same process (as conjure-test's build script does):
@@ -687,6 +788,23 @@ impl Engine for GenEngine {
                     (false, e.to_string(), String::new())
                 }
             };
+            let mut traced_outside: Vec<String> = Vec::new();
+            if traced {
+                if let Ok(text) = std::fs::read_to_string(&trace_file) {
+                    for p in created_paths(&text, &cwd) {
+                        let pb = PathBuf::from(&p);
+                        let ok = pb.starts_with(&out_abs)
+                            || out_abs.starts_with(&pb)
+                            || pb.starts_with(&warm_out)
+                            || p.starts_with("/dev/")
+                            || p.starts_with("/proc/");
+                        if !ok {
+                            traced_outside.push(p.replace(&*root.to_string_lossy(), "$SANDBOX"));
+                        }
+                    }
+                }
+                let _ = std::fs::remove_file(&trace_file);
+            }
             let after = list_tree(&root, &out_abs);
             let escaped: Vec<String> = after
                 .iter()
@@ -696,6 +814,9 @@ impl Engine for GenEngine {
                 // the earlier generation's own output directory
                 .filter(|p| !Path::new(p.as_str()).starts_with(&warm_out))
                 .map(|p| p.replace(&*root.to_string_lossy(), "$SANDBOX"))
+                // decoy entries placed by the harness itself
+                .filter(|p| !(tmp_state == 5 && p.contains("/tmp/")))
+                .chain(traced_outside.into_iter().map(|p| format!("(transient, seen by strace) {}", p)))
                 .collect();
             let tree = read_tree(&out_abs);
             let order = stdout.lines().find_map(|l| l.strip_prefix("ORDER ")).map(|s| s.to_string());
